@@ -827,10 +827,15 @@ def cycles_are_cut(F, res, sccs=None, rule="Q10"):
 
     # both cuts lean on the import closure: it has to follow every import statement (a module accessor `b.g()` makes the types of
     # two modules depend on each other just as an unqualified import does)
-    cq = F.fn("ide::def::scope::import_closure_query")
-    dq = FL.Defs(cq)
-    looks = [(b, t) for b, t in cq.calls() if (callee(t) or "").endswith("file_for_module_name")]
-    res.floor("module look-ups in import_closure_query", len(looks), 1)
+    cq = F.fns.get("ide::def::scope::import_closure_query")
+    if cq is None or not cq.blocks:
+        res.ob(rule, "cut/import-closure/exists", "the queries on a cycle ask an acyclic query over the import statements alone whether they may ask each other",
+               False, where="crates/ide/src/def/scope.rs", how="ide::def::scope::import_closure_query does not exist: nothing cuts the import cycle")
+        looks, dq = [], None
+    else:
+        dq = FL.Defs(cq)
+        looks = [(b, t) for b, t in cq.calls() if (callee(t) or "").endswith("file_for_module_name")]
+        res.floor("module look-ups in import_closure_query", len(looks), 1)
     for k, (b, t) in enumerate(looks):
         dep = FL.depends(F, cq, dq, t["args"][-1], use_bb=b)
         whole = any(x.endswith("module_imports") for x in dep["calls"])
